@@ -2,7 +2,7 @@ From Coq Require Import List NArith ZArith Permutation Sorting.Sorted.
 Require mathcomp.algebra.mxalgebra mathcomp.algebra.matrix mathcomp.algebra.rat.
 Require SK.lib.RankBridge SK.proof.C17_Rank.
 From SK Require Import lib.IRSortKeys lib.C17_Farkas model.C17_Model proof.C17_Proof model.C17_NodeModel proof.C17_Nodes
-  model.C17_IntLaws proof.C17_IntLawsProof model.C17_RawModel proof.C17_Raw.
+  model.C17_IntLaws proof.C17_IntLawsProof model.C17_RawModel proof.C17_Raw model.C17_Fallback proof.C17_FallbackProof.
 Import ListNotations.
 
 (** (1) build_S: one row per species, one column per reaction. *)
@@ -263,3 +263,31 @@ Theorem C17_undirected_raw_input :
   orient_raw (undirected_raw flips (raw_export ids idr strs net iso)) = raw_export ids idr strs net iso.
 Proof. intros ids idr strs net iso flips H. exact (orient_undirected_raw ids idr strs net iso H flips). Qed.
 Print Assumptions C17_undirected_raw_input.
+
+(** The code paths taken when SciPy cannot be imported (module flag _SCIPY_AVAILABLE False; model coq/model/C17_Fallback.v, evaluated on
+    a slice of the population with the flag switched off: exact kernel dimensions from the certified rank, fall-back verdicts).
+    Whenever the fall-back verdict of is_conservative is definite it is the verdict of the SciPy path whatever the LP would answer; and
+    under the same premise as [C17_verdicts_sound] (a sign-definite basis column is a law / a flux) a positive fall-back verdict is true. *)
+Theorem C17_noscipy_agrees :
+  forall (k : nat) (scanL b : bool),
+  conservative_verdict_noscipy k scanL = Some b ->
+  forall (lpL : bool) (lpR : nat) (scanR : bool), conservative_verdict k (Num scanL lpL lpR scanR) = b.
+Proof. exact noscipy_conservative_agrees. Qed.
+Print Assumptions C17_noscipy_agrees.
+
+Theorem C17_noscipy_verdicts_sound :
+  forall (k kr n : nat) (S : list (list Z)) (scanL scanR : bool),
+  (scanL = true -> conservative n S) -> (scanR = true -> consistent n S) ->
+  (conservative_verdict_noscipy k scanL = Some true -> conservative n S) /\
+  (consistent_verdict_noscipy kr scanR = Some true -> consistent n S).
+Proof. exact noscipy_verdicts_sound. Qed.
+Print Assumptions C17_noscipy_verdicts_sound.
+
+(** Fractional coefficients: a caller-supplied graph whose coefficients are c / d (d > 0 a common denominator) has the integer matrix
+    d * S_Q; a strictly positive conservation law / steady flux exists for d * S exactly when it exists for S — the fractional graph
+    views of the population are judged against the integer network. *)
+Theorem C17_scaling_invariant :
+  forall (d : Z) (n : nat) (S : list (list Z)), (0 < d)%Z ->
+  (conservative n (mscale d S) <-> conservative n S) /\ (consistent n (mscale d S) <-> consistent n S).
+Proof. exact scaling_invariant. Qed.
+Print Assumptions C17_scaling_invariant.
